@@ -20,7 +20,7 @@ THEOREMS = ["Sympler.Stages.C06_stage_correct", "Sympler.Stages.C06_schedule_sou
             "Sympler.Stages.C06_sweeps_le_depth", "Sympler.Stages.C06_order_dependent_acceptance_witness",
             "Sympler.Stages.C06_values_order_independent", "Sympler.Stages.C06_values_any_stage_order"]
 MODULES = ["Sympler.Stages", "Sympler.StagesLemmas", "Sympler.Gen.StagesGen", "Props.C06", "Props.StagesBridge"]
-BR = ["Sympler.Stages.Bridge_visit", "Sympler.Stages.Bridge_stage_constants"]
+BR = ["Sympler.Stages.Bridge_visit", "Sympler.Stages.Bridge_stage_constants", "Sympler.Stages.C06_stage0_twin"]
 TR = "translator t_stages (all producer-update sites of the stage search in symbol.cpp: uniform rule, self exclusion; stageIterations default and bound)"
 
 
@@ -177,6 +177,81 @@ def run(ctx):
             all_viol.append(dict(case=dict(scenario=v.get("scenario"), model_input=v.get("model_input")), errors=["pair-summed symbol evaluated on stale input: " + str(v["detail"])]))
     ctx.oblige("multi-species runs (%d scenarios): required stage of every symbol (longest path over expression AND both particle factors) = stage assigned by the real binary; pair sums = brute-force sums"
                % dyn_cases, dyn_cases > 0 and not dyn_stage and not dyn_viol, str([d.get("detail") for d in dyn_stage[:2]] + [v.get("detail") for v in dyn_viol[:1]])[:500])
+    # the same property for the symbols of the early pass (`stage="0"`, computed before the forces): they are staged by the twin
+    # functions findStageForSymbolName_0 / sortStages_0 with their own registries.  Implementation-side oracle: chains and diamonds of
+    # per-particle symbols with stage="0", written in several module orders: values = direct evaluation, identical for all orders;
+    # a cycle is reported.
+    s0_viol, s0_runs = [], 0
+    if ok:
+        import itertools
+        from fractions import Fraction as Fr
+        r0 = common.rng(ctx.seed, "c06-stage0")
+        for g in range(6 if not ctx.thorough else 60):
+            n = r0.randrange(3, 6)
+            names = ["z%s" % "abcde"[i] for i in range(n)]
+            syms = []
+            for i, nm in enumerate(names):
+                deps = sorted(set(r0.sample(names[:i], min(i, r0.randrange(1, 3))))) if i else []
+                syms.append(dict(name=nm, kind="P", deps=deps, wdeps=[], produces=nm, overwrite=False, a=Fr(r0.choice([1, 2, -1, 3]), r0.choice([1, 2])),
+                                 b=Fr(r0.choice([0, 1, -1]), 2), c=Fr(r0.randrange(-4, 5), 2)))
+            cyclic = (g % 5 == 4)
+            if cyclic:
+                syms[0]["deps"] = [names[-1]]
+            pts = set()
+            while len(pts) < 3:
+                pts.add((Fr(r0.randrange(2, 14), 4), Fr(r0.randrange(2, 14), 4), Fr(r0.randrange(4, 8), 4)))
+            case = dict(symbols=syms, particles=sorted(pts), cyclic=cyclic)
+            ov = cs.oracle_values(case)
+            perms = list(itertools.permutations(range(n)))
+            orders = [tuple(range(n)), tuple(reversed(range(n)))] + [r0.choice(perms) for _ in range(2)]
+            ref = None
+            for order in orders:
+                sc = cs.scenario(case, list(order))
+                for m in sc["modules"]:
+                    m[1]["stage"] = "0"
+                # the early-pass values are non-persistent and cleared again before the observer dumps: read them through a meter
+                sc["modules_after_phase"] = [["MeterPosVel", {"measureEvery": 1, "species": "A"},
+                                              [["OutputFile", {"nameOutputFile": "out.dat", "multipleFiles": "no", "columns": "|".join(names)}]]]]
+                d = "%s-s0/g%d_%s" % (base, g, "".join(str(i) for i in order))
+                shutil.rmtree(d, ignore_errors=True)
+                symlib.write_case(d, sc)
+                rc, out = symlib.run_sympler(d, common.sympler(), timeout=120)
+                s0_runs += 1
+                desc = dict(symbols=[dict(name=y["name"], expression=cs.expr_of(y), stage="0") for y in syms], module_order=list(order), particles=[[str(x) for x in p] for p in case["particles"]])
+                if ov is None:
+                    if rc == 0:
+                        s0_viol.append(dict(case=desc, errors=["a cyclic dependency between stage-0 symbols was evaluated instead of being reported (module order %s)" % (list(order),)]))
+                    continue
+                if rc != 0:
+                    s0_viol.append(dict(case=desc, errors=["stage-0 chain rejected: " + out[-200:]]))
+                    continue
+                try:
+                    rows = [[float(x) for x in l.split()] for l in open(os.path.join(d, "out.dat")) if l.strip() and not l.lstrip().startswith("#")]
+                except Exception as ex:
+                    s0_viol.append(dict(case=desc, errors=["no meter output: %r" % (ex,)]))
+                    continue
+                npart = len(case["particles"])
+                vals = [rows[k:k + npart] for k in range(0, len(rows) - len(rows) % npart, npart)]
+                bad = None
+                for k, block in enumerate(vals):
+                    if k == 0:
+                        continue          # the measurement before the first step precedes the first early pass
+                    for pi, row in enumerate(block):
+                        for ci, nm in enumerate(names):
+                            want = float(ov[nm][pi])
+                            if abs(row[ci] - want) > 1e-4 * max(1.0, abs(want)) and bad is None:
+                                bad = "stage-0 symbol %s of particle %d at output %d is %r, direct evaluation gives %r (module order %s)" % (nm, pi, k, row[ci], want, list(order))
+                if bad:
+                    s0_viol.append(dict(case=desc, errors=[bad]))
+                if ref is None:
+                    ref = vals[1:]
+                elif vals[1:] != ref and not bad:
+                    s0_viol.append(dict(case=desc, errors=["stage-0 results depend on the module order: %s vs %s" % (list(orders[0]), list(order))]))
+        shutil.rmtree(base + "-s0", ignore_errors=True)
+    ctx.oblige("oracle, early pass: chains / diamonds of per-particle symbols with stage=\"0\" in 4 module orders each (%d runs): values = direct evaluation, same for all orders, cycles reported"
+               % s0_runs, s0_runs > 0 and not s0_viol, str(s0_viol[:1])[:600])
+    if s0_viol and not all_viol:
+        all_viol.append(s0_viol[0])
     ctx.coverage.update(dict(evaluations=hist["runs"], distinct_nontrivial=len(seen),
                              rule="random dependency graphs of 3-8 symbol modules (ParticleScalar, PairScalar, PairParticleScalar; chains, diamonds, particle<->pair alternation), every 7th cyclic, every 7th with stageIterations in {1,2}; each graph run in 3 module orders (as generated, reversed, shuffled) on 3-6 particles for 2 steps; distinct = distinct dependency structures; all are non-trivial (>= 1 dependency)",
                              samples=samples, histogram=hist, traces_validated_against_impl=hist["runs"]))
